@@ -16,15 +16,30 @@ import zlib
 from harness import gallina as G
 
 ID = "C08"
-COQ_DIRS = ["C08"]
+COQ_DIRS = ["C08", "Gen"]
 PROPERTY_FILE = "C08/Property.v"
 RUN_IMPORTS = "From TV Require Import C08.Base C08.Model C08.Run."
 RUN_FN = "run_case"
 CHECK_FN = "check_case"
 INPUT_TYPE = "input"
 
+
+
+def pre_build():
+    """regenerate Gen/C08_src.v (the framing rules of _read_body & co.) from the working tree; fails closed"""
+    import importlib
+    import os
+    import sys
+    from harness.framework import REPO, COQ
+    sys.path.insert(0, os.path.join(os.path.dirname(COQ), "translators"))
+    import c08_src
+    importlib.reload(c08_src)
+    c08_src.emit(REPO, os.path.join(COQ, "Gen", "C08_src.v"))
+
+
 CRLF = b"\r\n"
 MAX_BUFFER = 1 << 20
+REQ_BODY = b"BODY"
 
 # ----------------------------------------------------------------------------
 # implementation runner
@@ -56,7 +71,7 @@ def _install_logging():
         lg.propagate = False
 
 
-def fetch_stream(segs, mh, mb, cs, head=False, dec=False, streaming=False):
+def fetch_stream(segs, mh, mb, cs, head=False, dec=False, streaming=False, exp=False):
     """Run one real fetch over a scripted transport.  Returns a dict with the observations
     and the zlib call record."""
     from harness.fake_iostream import FakeIOStream, EOF
@@ -115,8 +130,12 @@ def fetch_stream(segs, mh, mb, cs, head=False, dec=False, streaming=False):
         kw = {}
         if streaming:
             kw["streaming_callback"] = lambda c: out["chunks"].append(bytes(c))
-        req = httpclient.HTTPRequest("http://h.test/p", method="HEAD" if head else "GET",
-                                     decompress_response=dec, follow_redirects=False,
+        if exp:
+            # second path into the reader: run() -> _read_response() directly, body held back
+            kw.update(method="POST", body=REQ_BODY, expect_100_continue=True)
+        else:
+            kw.update(method="HEAD" if head else "GET")
+        req = httpclient.HTTPRequest("http://h.test/p", decompress_response=dec, follow_redirects=False,
                                      request_timeout=0, connect_timeout=0, **kw)
         req = httpclient._RequestProxy(req, dict(httpclient.HTTPRequest._DEFAULTS))
 
@@ -127,6 +146,7 @@ def fetch_stream(segs, mh, mb, cs, head=False, dec=False, streaming=False):
 
         Conn(None, req, release, lambda r: out["resp"].append(r), MAX_BUFFER, TC(), mh, mb)
         await quiesce(loop)
+        pre = len(s.sent)
         for seg in segs:
             assert len(seg) > 0
             if s.closed():
@@ -138,6 +158,7 @@ def fetch_stream(segs, mh, mb, cs, head=False, dec=False, streaming=False):
             s.feed(EOF)
             await quiesce(loop)
         out["closed"] = s.closed()
+        out["sent_after"] = bytes(s.sent[pre:])
 
     h1.GzipDecompressor = RecGz
     try:
@@ -154,6 +175,14 @@ _ERR = {"UnsatisfiableReadError": "UnsatisfiableRead", "_QuietException": "Quiet
 
 
 def canon(out):
+    o = _canon(out)
+    if len(o) == 4:
+        sa = out.get("sent_after", b"")
+        o.append(True if sa == REQ_BODY else False if sa == b"" else G.Tag("request-body-bytes-wrong"))
+    return o
+
+
+def _canon(out):
     streamed = b"".join(out["chunks"])
     if len(out["resp"]) > 1:
         return [G.Tag("final-callback-ran-twice")]
@@ -193,7 +222,8 @@ def segs_of(case):
 
 
 def run_impl(case):
-    out = fetch_stream(segs_of(case), case["mh"], case["mb"], case["cs"], case["head"], case["dec"], case["str"])
+    out = fetch_stream(segs_of(case), case["mh"], case["mb"], case["cs"], case["head"], case["dec"], case["str"],
+                       case.get("exp", False))
     tbl = []
     for e in out["gz"]:
         if e[0] == "err":
@@ -226,17 +256,17 @@ def gtbl(tbl):
 def coq_input(case):
     if "_tbl" not in case:
         run_impl(case)
-    return "(%s, %s, %s, %s, %s, %s, %s, %s)" % (
+    return "(%s, %s, %s, %s, %s, %s, %s, %s, %s)" % (
         G.gnat(case["mh"]), G.gn(case["mb"]), G.gnat(case["cs"]), G.gbool(case["head"]), G.gbool(case["dec"]),
-        G.gbool(case["str"]), gtbl(case["_tbl"]), G.glist([G.gbytes(s) for s in segs_of(case)], "(list N)"))
+        G.gbool(case["str"]), G.gbool(case.get("exp", False)), gtbl(case["_tbl"]), G.glist([G.gbytes(s) for s in segs_of(case)], "(list N)"))
 
 
 # ----------------------------------------------------------------------------
 # generator
 # ----------------------------------------------------------------------------
-def mk(segs, mh=1000, mb=1000, cs=64, head=False, dec=False, streaming=False, kind="", seg="", expect=None):
+def mk(segs, mh=1000, mb=1000, cs=64, head=False, dec=False, streaming=False, kind="", seg="", expect=None, exp=False):
     segs = [bytes(s) for s in segs if len(s) > 0]
-    c = {"mh": mh, "mb": mb, "cs": cs, "head": bool(head), "dec": bool(dec), "str": bool(streaming),
+    c = {"mh": mh, "mb": mb, "cs": cs, "head": bool(head) and not exp, "dec": bool(dec), "str": bool(streaming), "exp": bool(exp),
          "segs": [s.decode("latin-1") for s in segs], "kind": kind, "seg": seg}
     if expect is not None:
         c["expect"] = expect
@@ -281,6 +311,13 @@ def corpus_cases():
     out.append(mk([H + b"Content-Encoding: gzip\r\n\r\n" + gz + b"garbage"], dec=True, streaming=True, kind="gzip-trailing"))
     out.append(mk([H + b"Content-Encoding: gzip\r\nContent-Length: %d\r\n\r\n" % len(gz) + gz], dec=True, mb=50, streaming=True, kind="gzip-over"))
     out.append(mk([], kind="empty"))
+    # expect_100_continue
+    C = b"HTTP/1.1 100 Continue\r\n\r\n"
+    F = H + b"Content-Length: 2\r\n\r\nhi"
+    for segs in ([C, F], [C + F], [F], [C, C, F], [C + C + F], [b"HTTP/1.1 102 P\r\n\r\n", C, F], [C],
+                 [b"HTTP/1.1 100 Continue\r\nContent-Length: 0\r\n\r\n", F], [b"HTTP/1.1 417 EF\r\nContent-Length: 0\r\n\r\n"]):
+        out.append(mk(segs, exp=True, kind="expect"))
+        out.append(mk(segs, exp=False, kind="expect-off"))
     return out
 
 
@@ -504,16 +541,17 @@ def gen_cases(rng, tier):
         if exp is not None and rng.random() < 0.7:     # keep most valid streams decodable
             mh, mb, head = 1000, 1000, False
         streaming = rng.random() < 0.5
+        exp100 = rng.random() < (0.5 if kind.startswith("1xx") else 0.1)
         segs = segmentations(rng, stream, tier)
         if quick:
             segs = [segs[0]] + rng.sample(segs[1:], min(2, len(segs) - 1))
         expect = None
-        if exp is not None and len(stream) <= 420 and not head and mh >= exp["head_len"]:
+        if exp is not None and len(stream) <= 420 and (not head or exp100) and mh >= exp["head_len"]:
             body = exp["plain"] if (dec and exp["gz"]) else exp["wire"]
             if max(len(body), len(exp["wire"])) <= mb:
                 expect = {"code": exp["code"], "body": body}
         for name, sg in segs:
-            out.append(mk(sg, mh, mb, cs, head, dec, streaming, kind=kind, seg=name, expect=expect))
+            out.append(mk(sg, mh, mb, cs, head, dec, streaming, kind=kind, seg=name, expect=expect, exp=exp100))
     # boundary values: body length around max_body_size for each framing, both delivery modes
     for mb in (0, 1, 7):
         for ln in (max(0, mb - 1), mb, mb + 1):
@@ -533,6 +571,18 @@ def gen_cases(rng, tier):
                 tail = b"2\r\nxx\r\n0\r\n\r\n" if b"chunked" in ann else b"xx"
                 st = b"HTTP/1.1 %d R\r\n" % code + ann + b"\r\n" + (b"HTTP/1.1 200 OK\r\nContent-Length: 1\r\n\r\nZ" if code < 200 else tail)
                 out.append(mk([st], head=head, streaming=rng.random() < 0.5, kind="nobody-%d" % code))
+    # every sequence of up to 3 interim responses from {100, 102, 100+CL} before a final one,
+    # with and without expect_100_continue (small-scope exhaustive)
+    I = {"c": b"HTTP/1.1 100 Continue\r\n\r\n", "p": b"HTTP/1.1 102 Processing\r\n\r\n", "x": b"HTTP/1.1 100 C\r\nContent-Length: 0\r\n\r\n"}
+    finals = [b"HTTP/1.1 200 OK\r\nContent-Length: 2\r\n\r\nhi", b"HTTP/1.1 404 NF\r\n\r\nbody", b"", b"junk\r\n\r\n"]
+    import itertools
+    for n in range(0, 4):
+        for seq in itertools.product("cpx", repeat=n):
+            for fin in (finals if not quick or n < 3 else finals[:1]):
+                stream_ = b"".join(I[k] for k in seq) + fin
+                for e100 in (True, False):
+                    pieces = [I[k] for k in seq] + [fin]
+                    out.append(mk(pieces if rng.random() < 0.5 else [stream_], exp=e100, streaming=rng.random() < 0.5, kind="interims", seg="msgs"))
     # header-size boundary
     base = b"HTTP/1.1 200 OK\r\nContent-Length: 1\r\n\r\nZ"
     hl = len(base) - 1
@@ -576,9 +626,11 @@ def py_check(case, o):
     """Independent statement of the checkable part of the property on the implementation's
     observable: it completes, nothing is delivered late, sizes respect max_body_size, the result is
     never an interim response, the transport was closed and the slot released exactly once."""
-    if not isinstance(o, list) or len(o) != 4:
+    if not isinstance(o, list) or len(o) != 5:
         return False
-    out, st, late, early = o
+    out, st, late, early, sent = o
+    if not isinstance(sent, bool) or (sent and not case.get("exp")):
+        return False
     if isinstance(out, G.Tag) and str(out) in ("Hang",):
         return False
     if late != b"" or len(st) > case["mb"]:
@@ -611,7 +663,7 @@ def py_check(case, o):
 def nontrivial(case, o):
     if not case["segs"]:
         return None
-    return (case["mh"], case["mb"], case["cs"], case["head"], case["dec"], case["str"], tuple(case["segs"]))
+    return (case["mh"], case["mb"], case["cs"], case["head"], case["dec"], case["str"], case.get("exp", False), tuple(case["segs"]))
 
 
 def classify(case, o):
@@ -619,6 +671,7 @@ def classify(case, o):
     yield "seg=" + (case.get("seg") or "given")
     yield "out=" + _outkind(o)
     yield "dec=%s str=%s head=%s" % (case["dec"], case["str"], case["head"])
+    yield "expect100=%s sent=%s" % (case.get("exp", False), o[4] if isinstance(o, list) and len(o) > 4 else "?")
     if case.get("_tbl"):
         yield "zlib-calls=" + ("1-3" if len(case["_tbl"]) <= 3 else "4+")
 
@@ -640,7 +693,7 @@ def shrink(case):
             yield dict(base, segs=segs[:-1] + [last[:-1]])
         else:
             yield dict(base, segs=segs[:-1])
-    for f in ("dec", "str", "head"):
+    for f in ("dec", "str", "head", "exp"):
         if case[f]:
             yield dict(base, **{f: False})
 
@@ -652,12 +705,13 @@ def case_from_json(c):
 
 
 TRUSTED_BASE = [
+    "translators/c08_src.py (statement-template reader of is_transfer_encoding_chunked / _read_body / _read_body_until_close; fails closed)",
     "harness/fake_iostream.py as the transport (segments become readable one at a time, then EOF); a fake TCPClient hands it to the real _HTTPConnection",
     "zlib is an oracle: its answers (decompress/flush results in call order) are recorded on every run and replayed to the model's table-driven decompressor; the theorems quantify over an arbitrary decompressor",
     "the harness subclass sets HTTP1ConnectionParameters.chunk_size after _create_connection (simple_httpclient itself always uses 65536) and records first_line.reason in headers_received",
 ]
 ASSUMPTIONS = [
-    "one fetch, no redirects, no Expect: 100-continue, no header_callback, request_timeout disabled; the whole response stays below max_buffer_size (1 MiB in the harness)",
+    "one fetch (GET/HEAD, or POST with expect_100_continue and a 4-byte body), no redirects, no header_callback, request_timeout disabled; the whole response stays below max_buffer_size (1 MiB in the harness)",
     "segments are delivered one readable event at a time (the IOLoop runs to quiescence between segments); EOF follows the last segment",
 ]
 RULE = ("response grammar (status line x headers x framing {Content-Length, chunked, close, none} x optional gzip x 0-2 interim 1xx) with one "
@@ -670,4 +724,4 @@ LEVEL_TEXT = ("Machine-checked (Coq) proofs about an executable model of HTTP1Co
               "bodies respect max_body_size. The model is tied to the real client by differential runs over a FakeIOStream on every invocation.")
 LEVEL_NOTE = ("Trusted: Coq kernel/vm_compute; zlib as a recorded oracle; the FakeIOStream transport and harness; the hand-written model is tied "
               "to /repo by the correspondence only. Not covered: curl_httpclient, TLS, redirects, timeouts, max_buffer_size overflow.")
-TECHNIQUE = "Coq proof (simulation between stream implementations, induction over segments/chunks) + differential correspondence via vm_compute"
+TECHNIQUE = "Coq proof (simulation between stream implementations, induction over segments/chunks, fuel sufficiency) + translator of the framing rules from http1connection.py + differential correspondence via vm_compute"
